@@ -99,6 +99,7 @@ def scan_term(c):
 def strip_obs(c):
     """the input part of a case (what a replay needs)"""
     c = json.loads(json.dumps(c))
+    c.pop("close", None)
     if c["k"] == "ops":
         for o in c["ops"]:
             o.pop("res", None)
@@ -115,6 +116,14 @@ SCAN_NAMES = {0: "IterateRange", 1: "Iterate", 2: "IterateKey"}
 def evaluate(ck, recs):
     ops = [r for r in recs if r["k"] == "ops"]
     scans = [r for r in recs if r["k"] == "scan"]
+    for c in recs:
+        if c.get("close"):
+            f = dict(kind="input", key="c12:close:%s:%s" % (c["close"], c["k"]),
+                     what="DB.Close after the case reported %s (an iterator opened by a scan was never closed): %s" % (
+                         c["close"], json.dumps(strip_obs(c))),
+                     case=strip_obs(c), observed=c["close"], theorem_or_correspondence="pkg/db scans close their iterators")
+            f["spec_violated"] = True
+            ck.failures.append(f)
     good = []
     for c in ops:
         if c.get("panic") or not c.get("commit") or c["commit"].get("reverted") is None:
